@@ -268,9 +268,9 @@ def rule_G(ctx):
         def distanceTo(self, o):
             return self.position.call('distanceTo', o.position)
 
-    def stamp(sec_of_day, ms=0, day=15, wrap=int):
+    def stamp(sec_of_day, ms=0, day=15, year=2021, wrap=int):
         s = int(sec_of_day)
-        return OT(2021, 3, day, s // 3600, (s // 60) % 60, wrap(s % 60), ms)
+        return OT(year, 3, day, s // 3600, (s // 60) % 60, wrap(s % 60), ms)
     # coordinates and the seconds field held as numpy scalars (values taken from numpy arrays or data-frame columns): elapsed times and
     # distances are then numpy scalars too, for which a division by zero is inf/nan instead of an exception
     KINDS = {'Python numbers': (float, int), 'numpy scalars': (npstub.NpF64, lambda v: npstub.NpInt(v, 'int64'))}
@@ -291,6 +291,8 @@ def rule_G(ctx):
                                                               [(base_t, 0, 15), (base_t + 1, 0, 15), (base_t + 2, 0, 15), (base_t + 1, 0, 15), (base_t + 4, 0, 15)]),
         'across midnight': ([(0, 0, 0), (3, 4, 0), (6, 8, 0)], [(86399, 0, 15), (0, 500, 16), (2, 0, 16)]),
         'two fixes': ([(0, 0, 0), (3, 4, 7)], [(base_t, 0, 15), (base_t + 2, 0, 15)]),
+        'resumed on the same day and month one and three years later (same clock times)': ([(0, 0, 0), (3, 4, 0), (6, 8, 0), (9, 12, 0), (12, 16, 0)],
+                                                                                             [(base_t, 0, 15), (base_t + 1, 0, 15), (base_t + 1, 0, 15, 2022), (base_t + 2, 0, 15, 2022), (base_t, 0, 15, 2024)]),
     }
     found = {}
     n_cases = 0
@@ -310,11 +312,12 @@ def rule_G(ctx):
             sname = sname + ' [coordinates and seconds held as numpy scalars]'
 
         def build():
-            return T([O(k, EN(wc(float(p_[0])), wc(float(p_[1])), wc(float(p_[2]))), stamp(*tm, wrap=ws)) for k, (p_, tm) in enumerate(zip(pts, times))], 'u', 't')
+            return T([O(k, EN(wc(float(p_[0])), wc(float(p_[1])), wc(float(p_[2]))), stamp(*tm, wrap=ws)) for k, (p_, tm) in enumerate(zip(pts, times))], 'u', 't')       # tm = (second of the day, ms, day[, year])
         n = len(pts)
         legs = [0.0] + [math.hypot(pts[k][0] - pts[k - 1][0], pts[k][1] - pts[k - 1][1]) for k in range(1, n)]
         want_s = [sum(legs[:k + 1]) for k in range(n)]
-        secs = [tm[2] * 86400 + tm[0] + tm[1] / 1000.0 for tm in times]
+        import datetime as _dt
+        secs = [tm[2] * 86400 + tm[0] + tm[1] / 1000.0 + (_dt.date(tm[3], 1, 1) - _dt.date(2021, 1, 1)).days * 86400.0 if len(tm) > 3 else tm[2] * 86400 + tm[0] + tm[1] / 1000.0 for tm in times]
 
         def pair(i):
             return (1, 0) if i == 0 else ((n - 1, n - 2) if i == n - 1 else (i + 1, i - 1))
@@ -328,14 +331,14 @@ def rule_G(ctx):
             # timestamps are subtracted as float epoch seconds (~1.6e9, spacing 2.4e-7 s): the elapsed time carries that rounding
             tol_v.append(0.0 if abs(dt) < 1e-9 else abs(d / dt) * 6e-7 / abs(dt))
         tol_s = [0.0] * n
-        snapshot = [(k, tuple(float(c) for c in p_), tm) for k, (p_, tm) in enumerate(zip(pts, times))]
+        snapshot = [(k, tuple(float(c) for c in p_), tuple(tm[:3]) + (tm[3] if len(tm) > 3 else 2021,)) for k, (p_, tm) in enumerate(zip(pts, times))]
 
         def state_of(t):
             out = []
             for o in t.fields['_Track__POINTS']:
                 p_, ts = o.position, o.timestamp
                 out.append((o.k, (p_.fields['E'], p_.fields['N'], p_.fields['U']),
-                            (ts.fields['hour'] * 3600 + ts.fields['min'] * 60 + ts.fields['sec'], ts.fields['ms'], ts.fields['day'])))
+                            (ts.fields['hour'] * 3600 + ts.fields['min'] * 60 + ts.fields['sec'], ts.fields['ms'], ts.fields['day'], ts.fields['year'])))
             return out
         for what, f, call, want, feat, tol in (('abs_curv', fa, 'computeAbsCurv', want_s, 'abs_curv', tol_s), ('speed', fs, 'estimate_speed', want_v, 'speed', tol_v)):
             t = build()
